@@ -18,13 +18,63 @@ def run_order(reqs, order, hashseed):
     return out
 
 
+CAT = "CREATE TABLE t1 (a int, b int, c int); CREATE TABLE t2 (a int, c int, d int); CREATE TABLE s.t3 (a int, e int); CREATE TABLE t4 (k int, v int)"
+TABS = {"t1": ["a", "b", "c"], "t2": ["a", "c", "d"], "s.t3": ["a", "e"], "t4": ["k", "v"]}
+
+
+def shared_vocabulary(r, n):
+    """analysis requests (lineage over one catalogue, used columns of every clause, used tables) on statements built from a SMALL vocabulary, so that equal
+    expressions, equal select lists and equal sub-statements occur in many different statements of one history — plain SELECTs, set operations of 2–3 branches,
+    derived tables, WITH tables, INSERT … SELECT.  A result that is remembered per expression or per statement and later changed in place shows up as an answer
+    that depends on what was analysed before."""
+    def expr(t):
+        c = r.choice(TABS[t]); c2 = r.choice(TABS[t])
+        return r.choice([c, c, c, "%s + %s" % (c, c2), "abs(%s)" % c, "CASE WHEN %s > 0 THEN %s END" % (c, c2), "%s * 2" % c])
+
+    def select(t, k):
+        items = [expr(t) for _ in range(k)]
+        txt = "SELECT " + ", ".join(items) + " FROM " + t
+        if r.chance(0.3): txt += " WHERE %s > %d" % (r.choice(TABS[t]), r.below(3))
+        if r.chance(0.15): txt += " GROUP BY " + ", ".join(items) if all(i in TABS[t] for i in items) else ""
+        return txt
+
+    def query():
+        k = 1 + r.below(2)
+        shape = r.below(10)
+        if shape < 4:
+            return select(r.choice(list(TABS)), k)
+        if shape < 7:
+            op = r.choice(["UNION ALL", "UNION", "EXCEPT", "INTERSECT"])
+            return (" %s " % op).join(select(r.choice(list(TABS)), k) for _ in range(2 + r.below(2)))
+        if shape < 8:
+            t = r.choice(list(TABS)); cs = [r.choice(TABS[t]) for _ in range(k)]
+            return "SELECT %s FROM (SELECT %s FROM %s) x" % (", ".join("x." + c for c in cs), ", ".join(dict.fromkeys(cs)), t)
+        if shape < 9:
+            t = r.choice(list(TABS)); c = r.choice(TABS[t])
+            return "WITH w AS (%s UNION ALL %s) SELECT %s FROM w" % ("SELECT %s FROM %s" % (c, t), "SELECT %s FROM %s" % (c, t), c)
+        return "SELECT " + ", ".join("u.c%d" % i for i in range(k)) + " FROM (" + " UNION ALL ".join(
+            "SELECT " + ", ".join("%s AS c%d" % (expr(t), i) for i in range(k)) + " FROM " + t for t in [r.choice(list(TABS)) for _ in range(2)]) + ") u"
+
+    out = []
+    for _ in range(n):
+        q = query()
+        d = r.choice(["MYSQL", "HIVE", "DEFAULT"])
+        k = r.below(10)
+        if k < 5 and r.chance(0.25) and not q.startswith("WITH"):
+            q = "INSERT INTO t4 " + q          # positional pairing with t4's columns (k, v); the clause analyzers take query trees only
+        if k < 5: out.append("AN lineage %s %s %s" % (d, E.enhex(CAT), E.enhex(q)))
+        elif k < 8: out.append("AN columns %s %s %s" % (r.choice(["all", "select", "where", "group", "hash"]), d, E.enhex(q)))
+        else: out.append("AN tables %s %s %s" % (r.choice(["all", "from", "join"]), d, E.enhex(q)))
+    return out
+
+
 def run(ctx):
     n = 400 if ctx.quick else 6000
     ctx.cov["rule"] = ("a pool of parse / print / lex / analyse requests (valid, invalid, mixed dialects and entry points, duplicates) answered (1) by the history-free model (correspondence), "
                        "(2) by fresh interpreter processes in three different random orders under PYTHONHASHSEED 0 / 1 / 4242, (3) concurrently from 8 threads in one process, "
                        "(4) twice in a row in one process; oracle: every request gets the same answer in every run; (5) lineage requests (WITH tables and derived tables of the same "
                        "name with different bodies, and statements without them) from 4–8 threads on ONE shared analyzer and provider that yields at every lookup: every call must give the "
-                       "statement's own lineage (computed alone on a fresh analyzer before and after). distinct_nontrivial = distinct accepted answers")
+                       "statement's own lineage (computed alone on a fresh analyzer before and after); (6) analysis requests (lineage, used columns per clause, used tables) on statements over a SMALL shared vocabulary — equal expressions / select lists / sub-statements recur across plain SELECTs, set operations, derived and WITH tables — are part of the pool of (2)–(4). distinct_nontrivial = distinct accepted answers")
     ctx.assumptions += ["real thread interleavings under the GIL and process-level effects are observed, not modelled", "the frame fact is syntactic (write-set report); dynamic validation is by these runs"]
     r = ctx.rng.fork("c12")
     reqs = []
@@ -40,6 +90,7 @@ def run(ctx):
         for _ in range(n // 4):
             d = r.choice(["MYSQL", "HIVE", "DEFAULT"])
             reqs.append("AN tables all %s %s" % (d, E.enhex(sqlgen.Gen(r, d, wild=False).query())))
+        reqs += shared_vocabulary(r.fork("shared-vocabulary"), n)
     reqs += reqs[: n // 5]          # duplicates: the same request again later in the history
     # (1) the model is a function of the request: correspondence on the requests the driver knows
     known = [q for q in reqs if q.split(" ")[0] in ("P", "PR", "L")]
